@@ -213,6 +213,14 @@ func c02One(h *H, i int) {
 	if q.span.IsValid() {
 		ctx = c02TraceCtx(ctx, q.span)
 	}
+	if r.Intn(6) == 0 {
+		// an earlier request that never went out: a Ping whose context had already ended.  It fails, the client stays
+		// open - and nothing of it may be written while the query executes
+		dead, dcancel := context.WithCancel(context.Background())
+		dcancel()
+		_ = run.client.Ping(dead)
+		h.Stat("c02.after-unsent-ping")
+	}
 	doErr := run.client.Do(ctx, cq)
 	cancel()
 	rec := run.conn.Recorded()[run.hsLen:]
